@@ -68,6 +68,9 @@ mod utils;
 
 pub mod support;
 
+#[cfg(recmo_uint_verif)]
+pub mod verif_hooks;
+
 #[doc(inline)]
 pub use bit_arr::Bits;
 
